@@ -40,8 +40,11 @@ type Case struct {
 	PanicEvery int `json:"panic_every,omitempty"`
 	// Conc > 0: after registration the requests are served by that many goroutines at once on the
 	// one Mux (each goroutine walks the whole request list, starting at its own offset).
-	Conc int   `json:"conc,omitempty"`
-	Reqs []Req `json:"reqs,omitempty"`
+	Conc int `json:"conc,omitempty"`
+	// Incremental: the request list is served after EVERY registration (judged by the model of the
+	// routes registered so far): routes are added to a Mux that has already served requests.
+	Incremental bool  `json:"incremental,omitempty"`
+	Reqs        []Req `json:"reqs,omitempty"`
 }
 
 type handlerPanic struct{}
@@ -158,7 +161,76 @@ func runCase(cs Case, st *stats) (key, expected, observed string) {
 		}
 	}
 	mux.HandleNoRoute(observe(-1))
-	for _, r := range cs.Routes {
+	serveAll := func() (key, expected, observed string) {
+		reqs := cs.Reqs
+		if cs.Std {
+			reqs = stdReqs
+		}
+		if cs.Conc > 0 {
+			return runConc(cs, mux, mt, names, reqs, st)
+		}
+		w := &nullWriter{h: http.Header{}}
+		u := &url.URL{}
+		hr := &http.Request{URL: u, Header: http.Header{}}
+		for _, rq := range reqs {
+			hr.Method, u.Path = rq.M, rq.P
+			o = obs{route: -2, params: o.params[:0]}
+			var pv any
+			func() {
+				defer func() { pv = recover() }()
+				mux.ServeHTTP(w, hr)
+			}()
+			st.dispatches++
+			rk := func(what string) string {
+				return what + ":" + tableKey(cs.Routes) + "|" + rq.M + " " + fmt.Sprintf("%q", rq.P)
+			}
+			if _, own := pv.(handlerPanic); pv != nil && !own {
+				return rk("panic"), "no panic out of ServeHTTP", fmt.Sprintf("panic: %v", pv)
+			} else if own {
+				st.handlerPanics++
+			}
+			if o.calls != 1 {
+				return rk("calls"), "exactly one handler invocation", fmt.Sprintf("%d invocations", o.calls)
+			}
+			rooted := strings.HasPrefix(rq.P, "/")
+			var want mresult
+			if rooted {
+				want = mt.dispatch(rq.M, rq.P)
+			} else {
+				// the statement fixes no routing for such paths, only safety: accept the
+				// no-route handler or the routing of "/"+path
+				if o.route == -1 {
+					want = mresult{route: -1}
+					st.malformedAsNoRoute++
+				} else {
+					want = mt.dispatch(rq.M, "/"+rq.P)
+					st.malformedAsRooted++
+				}
+			}
+			if want.route != o.route {
+				return rk("route"), "selected " + descr(mt, want.route), "selected " + descr(mt, o.route)
+			}
+			if want.route >= 0 {
+				st.matched++
+				r := mt.routes[want.route]
+				if o.iPath != r.pattern || o.iMethod != r.method {
+					return rk("info"), fmt.Sprintf("RouteInfo{%q,%q}", r.pattern, r.method), fmt.Sprintf("RouteInfo{%q,%q}", o.iPath, o.iMethod)
+				}
+			} else {
+				st.noroute++
+			}
+			for i, n := range names {
+				if wv := want.params[n]; o.params[i] != wv {
+					return rk("param"), fmt.Sprintf("RouteParam(%q)=%q in %s", n, wv, descr(mt, want.route)), fmt.Sprintf("%q", o.params[i])
+				}
+			}
+			if o.any != want.any {
+				return rk("any"), fmt.Sprintf("RouteParamAny()=%q in %s", want.any, descr(mt, want.route)), fmt.Sprintf("%q", o.any)
+			}
+		}
+		return "", "", ""
+	}
+	for ri, r := range cs.Routes {
 		okModel := mt.register(r.P, r.M)
 		var pv any
 		func() {
@@ -174,74 +246,13 @@ func runCase(cs Case, st *stats) (key, expected, observed string) {
 			st.tablesInvalid++
 			return "", "", "" // not a successfully registered table: outside the statement
 		}
-	}
-	reqs := cs.Reqs
-	if cs.Std {
-		reqs = stdReqs
-	}
-	if cs.Conc > 0 {
-		return runConc(cs, mux, mt, names, reqs, st)
-	}
-	w := &nullWriter{h: http.Header{}}
-	u := &url.URL{}
-	hr := &http.Request{URL: u, Header: http.Header{}}
-	for _, rq := range reqs {
-		hr.Method, u.Path = rq.M, rq.P
-		o = obs{route: -2, params: o.params[:0]}
-		var pv any
-		func() {
-			defer func() { pv = recover() }()
-			mux.ServeHTTP(w, hr)
-		}()
-		st.dispatches++
-		rk := func(what string) string {
-			return what + ":" + tableKey(cs.Routes) + "|" + rq.M + " " + fmt.Sprintf("%q", rq.P)
-		}
-		if _, own := pv.(handlerPanic); pv != nil && !own {
-			return rk("panic"), "no panic out of ServeHTTP", fmt.Sprintf("panic: %v", pv)
-		} else if own {
-			st.handlerPanics++
-		}
-		if o.calls != 1 {
-			return rk("calls"), "exactly one handler invocation", fmt.Sprintf("%d invocations", o.calls)
-		}
-		rooted := strings.HasPrefix(rq.P, "/")
-		var want mresult
-		if rooted {
-			want = mt.dispatch(rq.M, rq.P)
-		} else {
-			// the statement fixes no routing for such paths, only safety: accept the
-			// no-route handler or the routing of "/"+path
-			if o.route == -1 {
-				want = mresult{route: -1}
-				st.malformedAsNoRoute++
-			} else {
-				want = mt.dispatch(rq.M, "/"+rq.P)
-				st.malformedAsRooted++
+		if cs.Incremental && ri < len(cs.Routes)-1 {
+			if k, e, o := serveAll(); k != "" {
+				return k + fmt.Sprintf("@after-%d-routes", ri+1), e, o
 			}
 		}
-		if want.route != o.route {
-			return rk("route"), "selected " + descr(mt, want.route), "selected " + descr(mt, o.route)
-		}
-		if want.route >= 0 {
-			st.matched++
-			r := mt.routes[want.route]
-			if o.iPath != r.pattern || o.iMethod != r.method {
-				return rk("info"), fmt.Sprintf("RouteInfo{%q,%q}", r.pattern, r.method), fmt.Sprintf("RouteInfo{%q,%q}", o.iPath, o.iMethod)
-			}
-		} else {
-			st.noroute++
-		}
-		for i, n := range names {
-			if wv := want.params[n]; o.params[i] != wv {
-				return rk("param"), fmt.Sprintf("RouteParam(%q)=%q in %s", n, wv, descr(mt, want.route)), fmt.Sprintf("%q", o.params[i])
-			}
-		}
-		if o.any != want.any {
-			return rk("any"), fmt.Sprintf("RouteParamAny()=%q in %s", want.any, descr(mt, want.route)), fmt.Sprintf("%q", o.any)
-		}
 	}
-	return "", "", ""
+	return serveAll()
 }
 
 // runConc serves the request list from cs.Conc goroutines at once; every observation is judged
@@ -356,7 +367,7 @@ type mon struct{}
 func (mon) Name() string { return "route" }
 
 func (mon) Level(string) (string, string) {
-	return "exploration", "route tables × requests against a reference router written from the statement. Small scope, exhaustive: all tables of ≤3 routes over 58 patterns; thorough adds all 4-route tables over the 10 distinct ≤2-segment shapes × {GET,POST,*}; (≤2 segments over {a,b,:x,:y,*} and 3 segments over {a,:x,*}) × methods {GET,*} (POST added for tables of ≤2), each against 151 paths (all ≤4-segment paths over {a,b,''} incl. doubled/trailing slashes, look-alike segments ':x' and '*', and malformed paths '', '*', 'a', 'a/b', '//', '///a', ...) × methods {GET,POST,'',BREW}; alternative spellings of patterns (doubled/trailing slashes); seeded random tables of 5..40 routes over all ten methods with arbitrary-byte segments, a part of them served by 4..64 goroutines at once on the one Mux. Some handlers panic after observing (recovered by the harness) and later requests must be unaffected. Handler observes I, RouteParam of every name in the table + an unknown one, RouteParamAny; invocation count; recover(). distinct_nontrivial = distinct successfully registered tables (hash of the route list)"
+	return "exploration", "route tables × requests against a reference router written from the statement. Small scope, exhaustive: all tables of ≤3 routes over 58 patterns; thorough adds all 4-route tables over the 10 distinct ≤2-segment shapes × {GET,POST,*}; (≤2 segments over {a,b,:x,:y,*} and 3 segments over {a,:x,*}) × methods {GET,*} (POST added for tables of ≤2), each against 151 paths (all ≤4-segment paths over {a,b,''} incl. doubled/trailing slashes, look-alike segments ':x' and '*', and malformed paths '', '*', 'a', 'a/b', '//', '///a', ...) × methods {GET,POST,'',BREW}; alternative spellings of patterns (doubled/trailing slashes); seeded random tables of 5..40 routes over all ten methods with arbitrary-byte segments, a part of them served by 4..64 goroutines at once on the one Mux. In a third of the cases the request list is served after every single registration (routes added to a Mux that has already served). Some handlers panic after observing (recovered by the harness) and later requests must be unaffected. Handler observes I, RouteParam of every name in the table + an unknown one, RouteParamAny; invocation count; recover(). distinct_nontrivial = distinct successfully registered tables (hash of the route list)"
 }
 
 func (mon) Assumptions(string) []string {
@@ -495,6 +506,7 @@ func (mn mon) Run(sh drv.Shard, c *drv.Ctx) {
 							if idx%4 == 0 {
 								cs.PanicEvery = 2 + idx%7
 							}
+							cs.Incremental = idx%3 == 0
 							if c.NumSamples() < 2 && k == j+5 {
 								c.Sample(map[string]any{"table": tableKey(cs.Routes), "requests": "standard set", "n_requests": len(stdReqs)})
 							}
@@ -627,6 +639,7 @@ func randCase(r *rand.Rand) Case {
 	if r.Intn(3) == 0 {
 		cs.PanicEvery = 2 + r.Intn(6)
 	}
+	cs.Incremental = r.Intn(3) == 0
 	for i := 0; i < nreq; i++ {
 		var p string
 		if r.Intn(4) != 0 {
